@@ -35,12 +35,26 @@ def build(content):
     h = cls(weighted=content["weighted"])
     for n, md in content["nodes"]:
         h.add_node(n, _copy.deepcopy(md))
+    ghost = None
+    if content.get("detour") and content["nodes"]:
+        # same content reached through a detour: a node with metadata and a hyperedge on it are inserted first and removed at the end,
+        # so internal tables may hold entries for a removed node / hyperedge that no extraction may resurrect
+        first = content["nodes"][0][0]
+        ghost = "zz" if isinstance(first, str) else max(n for n, _ in content["nodes"]) + 7
+        h.add_node(ghost, {"ghost": True})
+        ge = ((ghost,), (first,)) if content["cls"] == "D" else (first, ghost)
+        if content["weighted"]:
+            h.add_edge(ge, 9, metadata={"ghost": 1})
+        else:
+            h.add_edge(ge, metadata={"ghost": 1})
     for e, w, md in content["edges"]:
         e = (tuple(e[0]), tuple(e[1])) if content["cls"] == "D" else tuple(e)
         if content["weighted"]:
             h.add_edge(e, w, metadata=_copy.deepcopy(md))
         else:
             h.add_edge(e, metadata=_copy.deepcopy(md))
+    if ghost is not None:
+        h.remove_node(ghost)
     return h
 
 
@@ -251,6 +265,8 @@ def contents(ctx):
         weighted = bool(r % 2)
         out.append(dict(cls="H", weighted=weighted, nodes=[[lab(x), {"m": x} if x % 2 else {}] for x in range(n)],
                         edges=[[[lab(x) for x in e], rng.choice([1, 2, 0.5]) if weighted else 1, {"e": j} if j % 2 else {}] for j, e in enumerate(sorted(es))]))
+    # every content once more, reached through an insert-then-remove detour (see build)
+    out += [dict(c, detour=True) for j, c in enumerate(out) if (j % 4 == 0 or not quick)]
     return out
 
 
